@@ -77,7 +77,8 @@ observer sees: the `connect/read/disconnect/error` events, the socket calls, and
 op the tables of the statement ("no trace").
 
 Not modelled: the listening socket (it is registered with the poller like the control pipe and
-is never an object of the pool), `close()` without a socket (server shutdown), TLS / starttls,
+is never an object of the pool; a server-wide close closes it too - checked on the implementation by
+the harness), TLS / starttls, UDPServer,
 payload *contents* on the write side (a payload is its length; C11 is about the bytes), the
 channel of poller events (every registration in this model is the server's; C10 proves that an
 event goes to the registrant's channel).
@@ -272,6 +273,60 @@ def run (k : Poller.Kind) (ops : List Op) : State × List Obs := runFrom (State.
 
 def trace (k : Poller.Kind) (ops : List Op) : List Obs := (run k ops).2
 
+/-! ## server-wide `close()` and `stopped` (W11)
+
+    def close(self, sock=None):                          # `close` event without a socket
+        socks = [self._sock] + self._clients[:]          # (listening socket: closed too, not an object of the pool)
+        for sock in socks:
+            if not self._buffers.get(sock): self._close(sock)
+            elif sock not in self._closeq:  self._closeq.append(sock)
+        self.fire(closed())
+    def _on_stopped(self, component): self.fire(close())         # `stopped` on any channel
+
+Server-wide close = the body of the `close` handler for every socket of a *copy* of `_clients`, in order.
+-/
+
+/-- the loop of `close()` over a list of sockets fixed beforehand -/
+def closeEach (s : State) : List Obj → State × List Obs
+  | [] => (s, [])
+  | o :: rest =>
+    let r1 := closeReq s o
+    let r2 := closeEach r1.1 rest
+    (r2.1, r1.2 ++ r2.2)
+
+/-- `close()` of the whole server -/
+def closeAll (s : State) : State × List Obs := closeEach s s.clients
+
+/-- histories with the server-wide operations -/
+inductive XOp
+  | op (x : Op)
+  | closeAll          -- `close()` event without a socket
+  | stop              -- `stopped` event (the manager was stopped): `_on_stopped` fires `close()`
+
+def xvalid (s : State) : XOp → Bool
+  | .op x => valid s x
+  | _ => true
+
+def xstepCore (s : State) : XOp → State × List Obs
+  | .op x => stepCore s x
+  | .closeAll => closeAll s
+  | .stop => closeAll s
+
+def xstep (s : State) (op : XOp) : State × List Obs :=
+  let r := xstepCore s op
+  (r.1, r.2 ++ [.tab (rows r.1)])
+
+def xrunFrom (s : State) : List XOp → State × List Obs
+  | [] => (s, [])
+  | op :: rest =>
+    let r1 := xstep s op
+    let r2 := xrunFrom r1.1 rest
+    (r2.1, r1.2 ++ r2.2)
+
+def xrun (k : Poller.Kind) (ops : List XOp) : State × List Obs := xrunFrom (State.init k) ops
+
+def xtrace (k : Poller.Kind) (ops : List XOp) : List Obs := (xrun k ops).2
+
 /-! ## the client (`Client` / `TCPClient` / `UNIXClient`): connected / disconnected
 
     def connect(self, host, port):          # TCPClient; UNIXClient has the same shape
@@ -297,6 +352,14 @@ def trace (k : Poller.Kind) (ops : List Op) : List Obs := (run k ops).2
         except OSError: EPIPE/ENOTCONN -> self._close(); EINTR/EWOULDBLOCK/ENOBUFS -> appendleft(data)
                         else fire(error(e))
     __on_disconnect = self._close()
+    def _on_prepare_unregister(self, event, c): if event.in_subtree(self): self._close()     # (W11)
+    def _on_stopped(self, component): self.fire(close())                                     # (W11)
+  UNIXClient.connect (W11):
+        r = self._sock.connect_ex(path)        # a closed socket: EBADF, a path nobody listens on: ENOENT/ECONNREFUSED
+        if r and r not in (EISCONN, EWOULDBLOCK, EINPROGRESS, EALREADY): self.fire(error(r)); return
+        self._connected = True; self._poller.addReader(self, self._sock); self.fire(connected(...))
+  Pipe() (W11): two UNIXClients over a socketpair, created with `_connected = True` (no `connected` event):
+        a Pipe end is a client whose initial state is `pipeInit`.
 -/
 namespace Client
 
@@ -315,6 +378,7 @@ inductive ConnOut
   | ok          -- established: `_connected = True`, addReader, fire connected
   | refused     -- connect() raised at once: fire unreachable, error; `_close()`
   | timeout     -- getpeername() never succeeded within connect_timeout: fire unreachable
+  | failed      -- UNIXClient: connect_ex() answered an error: fire error, nothing else (W11)
 deriving DecidableEq, Repr
 
 inductive Op
@@ -324,6 +388,8 @@ inductive Op
   | readable (r : RecvOut)     -- `_read` from the poller
   | writable (r : CSend)       -- `_write` from the poller
   | hangup                     -- `_disconnect` from the poller
+  | unregister                 -- `prepare_unregister` for a subtree that contains the client: `_close()` (W11)
+  | stopped                    -- `stopped`: fires `close()` (W11)
 deriving DecidableEq, Repr
 
 inductive Ev
@@ -347,6 +413,9 @@ def step (s : State) : Op → State × List Ev
   | .connect .ok => ({ s with connected := true }, [.connected])
   | .connect .refused => let (s1, e) := doClose s; (s1, [.unreachable, .error] ++ e)
   | .connect .timeout => (s, [.unreachable])
+  | .connect .failed => (s, [.error])
+  | .unregister => doClose s
+  | .stopped => closeReq s
   | .close => closeReq s
   | .write n => ({ s with buf := s.buf ++ [n] }, [])
   | .readable (.data (b :: d)) => (s, [.read (b :: d)])
@@ -375,6 +444,11 @@ def runFrom (s : State) : List Op → State × List Ev
     (r2.1, r1.2 ++ r2.2)
 
 def trace (ops : List Op) : List Ev := (runFrom {} ops).2
+
+/-- a `Pipe()` end: born connected -/
+def pipeInit : State := { connected := true }
+
+def pipeTrace (ops : List Op) : List Ev := (runFrom pipeInit ops).2
 
 end Client
 
